@@ -85,6 +85,12 @@ class CompileMapper(StringifyMapper):
 
         return "numpy.array({})".format(stringify_leading_dimension(expr))
 
+    def map_logical_not(self, expr, enclosing_prec):
+        # In Python, 'not' binds less tightly than all arithmetic, bitwise and
+        # comparison operators (and 'a*not b' is a syntax error).
+        return "({})".format(
+                StringifyMapper.map_logical_not(self, expr, PREC_NONE))
+
     def map_foreign(self, expr, enclosing_prec):
         return StringifyMapper.map_foreign(self, expr, enclosing_prec)
 
